@@ -1,11 +1,11 @@
 #!/bin/sh
 # ingest_seed.sh <PROP> <name>: copy a sub-agent's seed from /tmp/wt_<PROP>/seed into /verif/seeded/<PROP>-<name>, verify and run checks
 set -e
-P=$1; N=$2; D=/verif/seeded/$P-$N
+P=$1; N=$2; W=${3:-/tmp/wt_$P}; D=/verif/seeded/$P-$N
 mkdir -p $D
-cp /tmp/wt_$P/seed/patch.diff /tmp/wt_$P/seed/demo.rs /tmp/wt_$P/seed/meta.json $D/
+cp $W/seed/patch.diff $W/seed/demo.rs $W/seed/meta.json $D/
 # keep the demo's Cargo.toml if it needs extra deps (serde/bincode)
-if grep -q "serde\|bincode" /tmp/wt_$P/seed/demo/Cargo.toml 2>/dev/null; then sed 's#path = "../.."#path = ".."#' /tmp/wt_$P/seed/demo/Cargo.toml > $D/demo.Cargo.toml; fi
+if grep -q "serde\|bincode" $W/seed/demo/Cargo.toml 2>/dev/null; then sed 's#path = "../.."#path = ".."#' $W/seed/demo/Cargo.toml > $D/demo.Cargo.toml; fi
 python3 /verif/engine/py/seedcheck.py verify $P-$N > $D/verify.json 2>&1 || true
 grep -E '"confirmed"|demo_with|demo_without' -A1 $D/verify.json | grep -E 'confirmed|PASS|FAIL'
 python3 /verif/engine/py/seedcheck.py run $P-$N 2>&1 | tee $D/checks.txt | cut -c1-220
